@@ -228,3 +228,17 @@ def register(mut):
     mut('pub-kick-not-flagged', 'publisher.h',
         '''                iter->_kicked =true;''',
         '''                iter->_kicked =false;''', ['C16'])
+    mut('shared-tracer-not-charged-when-pending', 'shared_future.h',
+        '''        if (_ptr->pending()) _ptr->resolve_tracer.charge(_ptr);''',
+        '''        if (!_ptr->pending()) _ptr->resolve_tracer.charge(_ptr);''', ['C17'])
+    mut('shared-tracer-no-reset', 'shared_future.h',
+        '''            static_cast<resolve_cb *>(x)->_ptr = nullptr;
+            return {};''',
+        '''            (void)x;
+            return {};''', ['C17'])
+    mut('shared-promise-fn-no-tracer', 'shared_future.h',
+        '''        :_ptr(std::make_shared<future_internal>(std::forward<Fn>(fn))) {
+
+        _ptr->resolve_tracer.charge(_ptr);''',
+        '''        :_ptr(std::make_shared<future_internal>(std::forward<Fn>(fn))) {
+''', ['C17'])
